@@ -102,6 +102,19 @@ def f_confcmd(rng, u, c):
     return ("configure_file(input: 'cin%s.txt', output: 'extcmd_%s.txt', command: ['cp', '@INPUT@', '@OUTPUT@'])\n" % (u, u)), {'cin%s.txt' % u: 'cmd input %s\n' % u}
 
 
+def f_confcmd_all(rng, u, c):
+    """every form of configure_file(command:) whose arguments name files in the build directory
+    (@OUTPUT@, @DEPFILE@): files that do not exist during a fresh configure and do afterwards"""
+    files = {'depgen%s.py' % u: DEPGEN_PY, 'cin%s.txt' % u: 'cmd input %s\n' % u}
+    for n in ['a', 'b', 'a1', 'b1']:
+        files['t%s_%s.txt' % (u, n)] = n + '\n'
+    return ("configure_file(input: 'cin%s.txt', output: 'extcmd_%s.txt', command: ['cp', '@INPUT@', '@OUTPUT@'])\n"
+            "configure_file(output: 'extcmd_dg%s.txt', depfile: 'depgen_%s.d', command: [find_program('depgen%s.py'), '@OUTPUT@', '@DEPFILE@', "
+            "meson.current_source_dir(), '%s'])\n"
+            "configure_file(output: 'cap%s.txt', command: ['sh', '-c', 'echo captured-%s'], capture: true)\n"
+            % (u, u, u, u, u, u, u, u)), files
+
+
 def f_custom(rng, u, c):
     files = {'gen%s.py' % u: GEN_PY, 'src%s.in' % u: 'data %s\n' % u, 'dep%sa.txt' % u: 'a\n', 'dep%sb.txt' % u: 'b\n', 'dep%sc.txt' % u: 'c\n'}
     deps = ['dep%sa.txt' % u, 'dep%sb.txt' % u, 'dep%sc.txt' % u]
@@ -295,6 +308,7 @@ FEATURES = [('confdata', f_confdata), ('confdict', f_confdict), ('confcopy', f_c
             ('custom', f_custom), ('tests', f_tests), ('install', f_install), ('pkgconfig', f_pkgconfig),
             ('cmake', f_cmake), ('misc', f_misc), ('ctargets', f_ctargets), ('cshared', f_cshared)]
 FEAT = dict(FEATURES)
+FEAT['confcmd_all'] = f_confcmd_all      # corpus only
 
 OPTIONS_FILE = ("option('zopt', type: 'string', value: 'zed', description: 'z')\n"
                 "option('aopt', type: 'boolean', value: true)\n"
@@ -394,6 +408,14 @@ def corpus(rng):
     out.append(make_project(rng, 'corp_c_shared', feats=['cshared', 'cshared'], c=True, nsub=0, subdirs=False))
     out.append(make_project(rng, 'corp_c_min', feats=['ctargets'], c=True, nsub=0, subdirs=False))
     out.append(make_project(rng, 'corp_subs', feats=['confdata', 'misc', 'install'], c=False, nsub=3, subdirs=True))
+    # build directory nested inside the source tree (`meson setup build`), with configure-time commands
+    # whose @OUTPUT@/@DEPFILE@ live in that build directory; once at top level, once in a subdir
+    q = make_project(rng, 'corp_nested_cmd', feats=['confcmd_all', 'confdata'], c=False, nsub=0, subdirs=False)
+    q['layout'] = 'nested'
+    out.append(q)
+    q = make_project(rng, 'corp_nested_sub', feats=['confcmd_all', 'confcmd', 'custom'], c=False, nsub=1, subdirs=True)
+    q['layout'] = 'nested'
+    out.append(q)
     return out
 
 
